@@ -333,6 +333,92 @@ def run_timeranges_cultures(job, ctx):
                     ctx.fail('wrong-range-endpoints:timerange', where, key, dict(case, want=want), want, {'entities': dtlib.view(res)})
 
 
+# 'from A to B' / 'between A and B' with two absolute dates in the other cultures; only connectives each culture merges into one range at all
+# (es 'desde..hasta', pt 'entre..e', it 'tra..e', de 'zwischen..und' are not: the statement is worded for the English connectives)
+DATE_RANGE_TEMPLATES = {
+    'es-es': ['del {a} al {b}', 'entre el {a} y el {b}', 'de {a} a {b}', 'entre {a} y {b}'],
+    'fr-fr': ['du {a} au {b}', 'entre le {a} et le {b}', 'de {a} à {b}', 'entre {a} et {b}'],
+    'pt-br': ['de {a} a {b}', 'de {a} até {b}'],
+    'it-it': ['dal {a} al {b}', 'da {a} a {b}'],
+    'de-de': ['vom {a} bis zum {b}', 'von {a} bis {b}'],
+    'nl-nl': ['van {a} tot {b}', 'tussen {a} en {b}', 'van {a} tot en met {b}', 'vanaf {a} tot {b}'],
+    'zh-cn': ['从{a}到{b}', '{a}到{b}', '{a}至{b}', '从{a}至{b}'],
+}
+DATE_RANGE_LAYOUTS = ('iso', 'd/m/yyyy', 'dd/mm/yyyy', 'month-name', 'd.m.yyyy', 'dd.mm.yyyy', 'd-m-yyyy', 'yyyy/m/d', 'yyyy-m-d', 'yyyy年m月d日')
+
+
+def run_dateranges_cultures(job, ctx):
+    """two absolute dates joined by the culture's from-to / between-and connectives: one daterange entity covering both dates,
+    one value whose start/end are the dates written and whose TIMEX is (start,end,PnD)"""
+    from rtmon import lib
+    cu = job['culture']
+    m = dtlib.dt_model(cu)
+    r = ctx.rng('c10:dr:' + cu)
+    lay = {k: f for k, f in dtlib.layouts(cu).items() if k in DATE_RANGE_LAYOUTS and not (cu == 'pt-br' and k == 'd-m-yyyy')}
+    n = 40 if ctx.tier == 'quick' else 1200
+    for _ in range(n):
+        a = dtlib.rand_date(r)
+        b = a + dt.timedelta(days=r.choice([1, 2, 7, 28, 29, 30, 31, 365, 366, r.randrange(1, 4000)]))
+        if b.year > 2099:
+            continue
+        for name, f in lay.items():
+            for t in DATE_RANGE_TEMPLATES[cu]:
+                sa, sb = f(a), f(b)
+                q = t.format(a=sa, b=sb)
+                if r.random() < 0.2:
+                    q = '  ' + q
+                a0 = q.index(sa)
+                b1 = q.rindex(sb) + len(sb) - 1
+                ref = dtlib.rand_ref(r)
+                want = {'start': a.isoformat(), 'end': b.isoformat(), 'timex': '(%s,%s,P%dD)' % (a.isoformat(), b.isoformat(), (b - a).days)}
+                cls = 'daterange|%s|%s' % (name, t)
+                where = {'model': 'DateTimeModel', 'culture': cu, 'cls': cls}
+                key = '%s|%s' % (cu, q)
+                case = {'culture': cu, 'query': q, 'reference': ref.isoformat(), 'cls': cls, 'want': want, 'cover': [a0, b1]}
+                lib.take_swallowed()
+                try:
+                    res = m.parse(q, ref)
+                except Exception as e:
+                    ctx.observe(key=key, cell=cu + ':daterange')
+                    ctx.fail('exception', where, key, case, want, repr(e))
+                    continue
+                ctx.event('boundary_calls')
+                mech = daterange_problem(res, want, a0, b1, len(q))
+                ctx.observe(key=key, nontrivial=len(res) == 1 and res[0].resolution is not None, cell=cu + ':daterange',
+                            sample={'culture': cu, 'query': q, 'observed': dtlib.view(res)})
+                if mech:
+                    ctx.fail(mech + ':daterange', where, key, case, want, {'entities': dtlib.view(res), 'swallowed': lib.take_swallowed()})
+                for e in res:
+                    for v in dtlib.vals(e):
+                        prob, is_triple = triple_problem(v)
+                        if is_triple:
+                            ctx.event('triple_timex_checked')
+                        if prob:
+                            ctx.fail('triple:' + prob, where, key, case, 'consistent (start,end,duration)', v)
+
+
+def daterange_problem(res, want, a0, b1, n):
+    if not res:
+        return 'missed'
+    if len(res) > 1:
+        return 'split'
+    e = res[0]
+    vs = dtlib.vals(e)
+    if e.resolution is None or not vs:
+        return 'unresolved'
+    if not (0 <= e.start <= a0 and b1 <= e.end < n):
+        return 'wrong-span'
+    if e.type_name != 'datetimeV2.daterange':
+        return 'wrong-type'
+    if len(vs) != 1:
+        return 'wrong-number-of-values'
+    if (vs[0].get('start'), vs[0].get('end')) != (want['start'], want['end']):
+        return 'wrong-range-endpoints'
+    if vs[0].get('timex') != want['timex']:
+        return 'wrong-range-timex'
+    return None
+
+
 def run_triple(job, ctx):
     from rtmon import lib
     cu = job['culture']
@@ -366,6 +452,7 @@ def plan(tier, seed):
     jobs = [{'name': p, 'kind': 'gen', 'part': p} for p in ('duration', 'daterange', 'timerange')]
     jobs += [{'name': 'dur-' + cu, 'kind': 'durcult', 'culture': cu} for cu in sorted(CULT_UNITS)]
     jobs += [{'name': 'tr-' + cu, 'kind': 'trcult', 'culture': cu} for cu in sorted(TIME_RANGE_TEMPLATES)]
+    jobs += [{'name': 'dr-' + cu, 'kind': 'drcult', 'culture': cu} for cu in sorted(DATE_RANGE_TEMPLATES)]
     for cu in dtlib.DT_CULTURES:
         sh = 4 if cu == 'en-us' else 1
         if tier == 'thorough' and cu == 'en-us':
@@ -376,7 +463,7 @@ def plan(tier, seed):
 
 
 def run(job, ctx):
-    {'gen': run_gen, 'triple': run_triple, 'durcult': run_durations_cultures, 'trcult': run_timeranges_cultures}[job['kind']](job, ctx)
+    {'gen': run_gen, 'triple': run_triple, 'durcult': run_durations_cultures, 'trcult': run_timeranges_cultures, 'drcult': run_dateranges_cultures}[job['kind']](job, ctx)
 
 
 def replay_case(fail, ctx):
